@@ -74,7 +74,7 @@ package absnfs
 //@ func DirCache.Clear
 //@ prop C21 C17
 //@ requires c != nil
-//@ modifies c.entries, c.accessList, lmem, lrank, llen, locks
+//@ modifies c.entries, c.accessList, lmem[c.accessList], lrank[c.accessList], llen[c.accessList], locks
 //@ ensures [empty] len(c.entries) == 0 && forall(q, string, !has(c.entries, q))
 //@ ensures [inv] c.maxEntries > 0 ==> dcInv(c)
 //@ ensures [unlocked] held(c.mu) == 0
